@@ -59,6 +59,25 @@ PAIRS = [
     ('complex64', 'complex128', True),
     ('unsafe.Pointer', 'uintptr', True),
     ('unsafe.Pointer', '*int', True),
+    # same spelling, different package: the named type differs, so every type built from it differs
+    ('lib.Box[Named]', 'lib.Box[Named]', True),
+    ('[]Named', '[]Named', False),
+    ('map[Named]int', 'map[Named]int', False),
+    ('func(Named)', 'func(Named)', False),
+    ('chan Named', 'chan Named', True),
+    ('struct{ N Named }', 'struct{ N Named }', True),
+    ('*lib.Box[int]', '*lib.Box[int]', True),
+    ('[2][3]int', '[3][2]int', True),
+    ('**int', '*int', True),
+    ('struct{ _ int; A int }', 'struct{ A int; _ int }', True),
+    ('struct{ A int; _ int8 }', 'struct{ A int; _ uint8 }', True),
+    ('func() (int, error)', 'func() (error, int)', False),
+    ('func(...lib.T)', 'func(...lib.U)', False),
+    ('interface{ lib.Hello }', 'interface{ Hello() int }', True),
+    ('*interface{ lib.Hello }', '*interface{ Hello() int }', True),
+    ('*interface{ Hello() int; m() }', '*interface{ Hello() int; m() }', True),
+    ('map[string]struct{ lib.T }', 'map[string]struct{ T lib.T }', False),
+    ('[1]struct{ A int `a:"b"` }', '[1]struct{ A int }', True),
 ]
 
 
@@ -104,6 +123,8 @@ func (t T) Hello() int { return t.A + 1 }
 type U struct{ A int }
 
 func (u U) Hello() int { return u.A + 2 }
+
+type Hello interface{ Hello() int }
 
 type Box[X any] struct{ V X }
 
